@@ -43,6 +43,7 @@ theorem recv_sound (hl : ∀ s, (cfg.lower s).length = s.length) (n : Nat) (ih :
   | float lo hi' => exact recv_float cfg sfh lo hi' b v h hi
   | bool x => exact recv_bool cfg sfh x b v h hi
   | tspan r => exact recv_tspan cfg sfh r b v h hi
+  | tstamp r => exact recv_tstamp cfg sfh r b v h hi
   | strSz r => exact recv_strSz cfg sfh hl r b v h hi
   | strVal s => exact recv_strVal cfg sfh s b v h hi
   | enum vs ci => exact recv_enum cfg sfh vs ci b v H.wb h hi
